@@ -316,8 +316,8 @@ def r4_cursor_progress(ctx, rep):
 
 
 RULES = [
-    RuleSpec("C20.R1", r1_containment, "per-file containment structure", floor=8),
-    RuleSpec("C20.R2", r2_no_cross_file_state, "no partial registration, no cross-file mutable state", floor=5),
-    RuleSpec("C20.R3", r3_nesting_errors_raise, "malformed nesting raises", floor=20),
-    RuleSpec("C20.R4", r4_cursor_progress, "cursor progress in the literal masking loops", floor=4),
+    RuleSpec("C20.R1", r1_containment, "per-file containment structure", floor=4),
+    RuleSpec("C20.R2", r2_no_cross_file_state, "no partial registration, no cross-file mutable state", floor=3),
+    RuleSpec("C20.R3", r3_nesting_errors_raise, "malformed nesting raises", floor=14),
+    RuleSpec("C20.R4", r4_cursor_progress, "cursor progress in the literal masking loops", floor=2),
 ]
